@@ -54,16 +54,17 @@ example : (List.replicate 50 ([] : List UOp)).length ≥ maxDepth := by decide
 State: any heap (tombstones, nested containers, arrays), any stacks.  `Fresh h` (Lemmas/UndoMain.lean):
 the heap is well formed relative to some home assignment (`WF`: parents are containers, key lists
 sorted, every member child has one home key and home container), every stored identity and
-`positionedAt` is at most `h.lamport` (`Bounded`), twinned identities are not later than `h.lamport`,
-and the root is a live container.  The edited object must not be `orphaned` (counterexample S2) and
-the elements touched must not be twinned.  `h.next = ⟨h.lamport + 1, 1, h.actor⟩` is the ticket the
+`positionedAt` is at most `h.lamport` (`Bounded`), and the root is a live container.  The edited object
+must not be `orphaned`, i.e. have no REMOVED ancestor-or-self; `noTw = fun _ => false`: in the repaired
+tree (`fixReconcileParent`) twin marks are invisible to the skip rule, so the former conditions on
+twinned identities are gone.  `h.next = ⟨h.lamport + 1, 1, h.actor⟩` is the ticket the
 json layer issues for the edit; `undo` then issues `⟨h.lamport + 2, 1, h.actor⟩`. -/
 
 theorem next_ticket (h : Hist) : h.next = ⟨h.lamport + 1, 1, h.actor⟩ := rfl
 
 /-- undo of `obj.k = leaf` where `k` was free (or held a tombstone) -/
 theorem undo_do_set_fresh (h : Hist) (fr : Fresh h) (p : Ticket) (k : String) (v : Val)
-    (hp : isObj h.doc p = true) (horph : orphaned h.doc h.tw orphanFuel p = false)
+    (hp : isObj h.doc p = true) (horph : orphaned h.doc noTw orphanFuel p = false)
     (hv : leafBody v.body = true) (hk : winner h.doc p k = none) (fuel : Nat) :
     marshal (undo (doChange h [.set p k (UVal.ofVal v h.next) h.next])).doc fuel rootId =
       marshal h.doc fuel rootId := by
@@ -71,7 +72,7 @@ theorem undo_do_set_fresh (h : Hist) (fr : Fresh h) (p : Ticket) (k : String) (v
   exact undo_do_edit (e := .set p k v) w fr.bd fr.root g fuel
 
 theorem redo_undo_do_set_fresh (h : Hist) (fr : Fresh h) (p : Ticket) (k : String) (v : Val)
-    (hp : isObj h.doc p = true) (horph : orphaned h.doc h.tw orphanFuel p = false)
+    (hp : isObj h.doc p = true) (horph : orphaned h.doc noTw orphanFuel p = false)
     (hv : leafBody v.body = true) (hk : winner h.doc p k = none) (fuel : Nat) :
     marshal (redo (undo (doChange h [.set p k (UVal.ofVal v h.next) h.next]))).doc fuel rootId =
       marshal (doChange h [.set p k (UVal.ofVal v h.next) h.next]).doc fuel rootId := by
@@ -80,39 +81,39 @@ theorem redo_undo_do_set_fresh (h : Hist) (fr : Fresh h) (p : Ticket) (k : Strin
 
 /-- undo of `obj.k = leaf` over a live leaf `u` -/
 theorem undo_do_set_overwrite_leaf (h : Hist) (fr : Fresh h) (p u : Ticket) (k : String) (v : Val)
-    (hp : isObj h.doc p = true) (horph : orphaned h.doc h.tw orphanFuel p = false)
+    (hp : isObj h.doc p = true) (horph : orphaned h.doc noTw orphanFuel p = false)
     (hv : leafBody v.body = true) (hk : winner h.doc p k = some u) (hu : isLeafAt h.doc u = true)
-    (htw : h.tw u = false) (fuel : Nat) :
+    (fuel : Nat) :
     marshal (undo (doChange h [.set p k (UVal.ofVal v h.next) h.next])).doc fuel rootId =
       marshal h.doc fuel rootId := by
   obtain ⟨H, w, g⟩ := good_set_of_fresh fr hp horph hv (k := k)
-    (by intro u' hu'; rw [hk] at hu'; cases hu'; exact ⟨hu, htw⟩)
+    (by intro u' hu'; rw [hk] at hu'; cases hu'; exact hu)
   exact undo_do_edit (e := .set p k v) w fr.bd fr.root g fuel
 
 theorem redo_undo_do_set_overwrite_leaf (h : Hist) (fr : Fresh h) (p u : Ticket) (k : String) (v : Val)
-    (hp : isObj h.doc p = true) (horph : orphaned h.doc h.tw orphanFuel p = false)
+    (hp : isObj h.doc p = true) (horph : orphaned h.doc noTw orphanFuel p = false)
     (hv : leafBody v.body = true) (hk : winner h.doc p k = some u) (hu : isLeafAt h.doc u = true)
-    (htw : h.tw u = false) (fuel : Nat) :
+    (fuel : Nat) :
     marshal (redo (undo (doChange h [.set p k (UVal.ofVal v h.next) h.next]))).doc fuel rootId =
       marshal (doChange h [.set p k (UVal.ofVal v h.next) h.next]).doc fuel rootId := by
   obtain ⟨H, w, g⟩ := good_set_of_fresh fr hp horph hv (k := k)
-    (by intro u' hu'; rw [hk] at hu'; cases hu'; exact ⟨hu, htw⟩)
+    (by intro u' hu'; rw [hk] at hu'; cases hu'; exact hu)
   exact redo_undo_do_edit (e := .set p k v) w fr.bd fr.root g fuel
 
 /-- undo of `delete obj.k` where the value is a live leaf `u` -/
 theorem undo_do_delete_leaf (h : Hist) (fr : Fresh h) (p u : Ticket) (k : String)
-    (hp : isObj h.doc p = true) (horph : orphaned h.doc h.tw orphanFuel p = false)
-    (hk : winner h.doc p k = some u) (hu : isLeafAt h.doc u = true) (htw : h.tw u = false) (fuel : Nat) :
+    (hp : isObj h.doc p = true) (horph : orphaned h.doc noTw orphanFuel p = false)
+    (hk : winner h.doc p k = some u) (hu : isLeafAt h.doc u = true) (fuel : Nat) :
     marshal (undo (doChange h [.remove p u h.next])).doc fuel rootId = marshal h.doc fuel rootId := by
-  obtain ⟨H, w, g⟩ := good_remove_of_fresh fr hp horph hk hu htw
+  obtain ⟨H, w, g⟩ := good_remove_of_fresh fr hp horph hk hu
   exact undo_do_edit (e := .remove p u) w fr.bd fr.root g fuel
 
 theorem redo_undo_do_delete_leaf (h : Hist) (fr : Fresh h) (p u : Ticket) (k : String)
-    (hp : isObj h.doc p = true) (horph : orphaned h.doc h.tw orphanFuel p = false)
-    (hk : winner h.doc p k = some u) (hu : isLeafAt h.doc u = true) (htw : h.tw u = false) (fuel : Nat) :
+    (hp : isObj h.doc p = true) (horph : orphaned h.doc noTw orphanFuel p = false)
+    (hk : winner h.doc p k = some u) (hu : isLeafAt h.doc u = true) (fuel : Nat) :
     marshal (redo (undo (doChange h [.remove p u h.next]))).doc fuel rootId =
       marshal (doChange h [.remove p u h.next]).doc fuel rootId := by
-  obtain ⟨H, w, g⟩ := good_remove_of_fresh fr hp horph hk hu htw
+  obtain ⟨H, w, g⟩ := good_remove_of_fresh fr hp horph hk hu
   exact redo_undo_do_edit (e := .remove p u) w fr.bd fr.root g fuel
 
 /-- undo of `counter.Increase(delta)`; the json layer casts the operand to the counter type
@@ -144,7 +145,7 @@ identities are pairwise distinct, are not the head identity and are not later th
 theorem undo_do_insert_leaf (h : Hist) (fr : Fresh h) (p prev : Ticket) (v : Val) (pe : Elem)
     (nodes nodes' : List PosNode) (moved : Ticket → Option Ticket)
     (hd : h.doc p = some pe) (hb : pe.body = .arr nodes moved)
-    (horph : orphaned h.doc h.tw orphanFuel p = false)
+    (horph : orphaned h.doc noTw orphanFuel p = false)
     (hins : insertAfter prev ⟨h.next, some h.next⟩ nodes = some nodes') (fuel : Nat) :
     marshal (undo (doChange h [.add p prev (UVal.ofVal v h.next) h.next])).doc fuel rootId =
       marshal h.doc fuel rootId :=
@@ -162,7 +163,7 @@ example : visible hArr = "{\"arr\":[1,2]}" := by decide
 example : Fresh hArr := fresh_hArr
 example : ArrDel hArr tA tY eArr eY [⟨tX, some tX⟩, ⟨tY, some tY⟩] (fun _ => none) := arrDel_hArr
 example : hArr.doc tA = some eArr ∧ eArr.body = .arr [⟨tX, some tX⟩, ⟨tY, some tY⟩] (fun _ => none) ∧
-    orphaned hArr.doc hArr.tw orphanFuel tA = false ∧
+    orphaned hArr.doc noTw orphanFuel tA = false ∧
     (insertAfter tX ⟨hArr.next, some hArr.next⟩ [⟨tX, some tX⟩, ⟨tY, some tY⟩]).isSome = true :=
   ⟨rfl, rfl, by decide, by decide⟩
 /-- the two theorems evaluated on the example -/
@@ -179,7 +180,7 @@ end examplesArray
 `runEdits h es` performs the edits `es` one local change each (`Edit.op` gives the operation the json
 layer builds, with the ticket `h.next` of the moment).  `EditsOk H h es`: every edit is executable in
 the alphabet when its turn comes (`GoodOp`, Lemmas/UndoGood.lean: the object is live and not
-orphaned, values and overwritten/deleted members are untwinned leaves, counters get in-range
+orphaned, values and overwritten/deleted members are leaves, counters get in-range
 operands); `H` fixes the home key/container of the tickets the run will issue.  `checkRun` is the
 decidable version for concrete runs. -/
 
@@ -240,13 +241,12 @@ example (fuel : Nat) : marshal (redoN 2 (undoN 3 (runEdits {} exRun))).doc fuel 
 
 example : Fresh exHist :=
   (fresh_run (H := exH) (exRun.take 3) {} (WF_init rfl)
-    ⟨⟨exH, WF_init rfl⟩, Bounded_init, (fun _ ht => by cases ht), skel_init⟩ (checkRun_ok (by decide))).1
+    ⟨⟨exH, WF_init rfl⟩, Bounded_init, skel_init⟩ (checkRun_ok (by decide))).1
 
 -- hypotheses of the depth-1 theorems on `exHist` (lamport 3, next ticket ⟨4, 1, 0⟩)
-example : isObj exHist.doc rootId = true ∧ orphaned exHist.doc exHist.tw orphanFuel rootId = false ∧
+example : isObj exHist.doc rootId = true ∧ orphaned exHist.doc noTw orphanFuel rootId = false ∧
     winner exHist.doc rootId "z" = none ∧ leafBody (Val.prim "9").body = true := by decide
-example : winner exHist.doc rootId "b" = some ⟨3, 1, 0⟩ ∧ isLeafAt exHist.doc ⟨3, 1, 0⟩ = true ∧
-    exHist.tw ⟨3, 1, 0⟩ = false := by decide
+example : winner exHist.doc rootId "b" = some ⟨3, 1, 0⟩ ∧ isLeafAt exHist.doc ⟨3, 1, 0⟩ = true := by decide
 example : ∃ ce, exHist.doc ⟨2, 1, 0⟩ = some ce ∧ ce.removed = false ∧ ce.body = .counter false 5 ∧
     wrap false 7 = 7 ∧ wrap false 5 = 5 := ⟨_, rfl, rfl, rfl, by decide, by decide⟩
 
@@ -260,7 +260,7 @@ succeeds, `Undo()` does not return an error, and neither does the following `Red
 `Outcome.isFailed` is true exactly for `Outcome.failed`. -/
 
 theorem undo_total_move (h : Hist) (p prev target : Ticket) (d' : Doc) (r : Option UOp)
-    (hfw : uexecute h.doc h.tw .loc (.move p prev target h.next) = .ok (d', r)) :
+    (hfw : uexecute h.doc noTw .loc (.move p prev target h.next) = .ok (d', r)) :
     (undoRedo (doChange h [.move p prev target h.next]) true).2.isFailed = false ∧
     (undoRedo (undo (doChange h [.move p prev target h.next])) false).2.isFailed = false :=
   move_total (moveOk_of_exec hfw)
@@ -268,7 +268,7 @@ theorem undo_total_move (h : Hist) (p prev target : Ticket) (d' : Doc) (r : Opti
 /-- `p.lamport ≤ h.lamport`: the array is an element of the present heap (cf. `Bounded`) -/
 theorem undo_total_arraySet (h : Hist) (p target : Ticket) (v : UVal) (d' : Doc) (r : Option UOp)
     (hp : p.lamport ≤ h.lamport)
-    (hfw : uexecute h.doc h.tw .loc (.arraySet p target v h.next) = .ok (d', r)) :
+    (hfw : uexecute h.doc noTw .loc (.arraySet p target v h.next) = .ok (d', r)) :
     (undoRedo (doChange h [.arraySet p target v h.next]) true).2.isFailed = false ∧
     (undoRedo (undo (doChange h [.arraySet p target v h.next])) false).2.isFailed = false :=
   aset_total (asOk_of_exec hfw).2 hp (asOk_of_exec hfw).1
@@ -284,11 +284,11 @@ def exArr : Hist :=
 example : visible exArr = "{\"arr\":[1,2]}" ∧ exArr.next = ⟨4, 1, 0⟩ := by decide
 
 /-- the forward move of the second element to the front succeeds -/
-example : (uexecute exArr.doc exArr.tw .loc (.move ⟨1, 1, 0⟩ headId ⟨3, 1, 0⟩ exArr.next)).toBool = true := by
+example : (uexecute exArr.doc noTw .loc (.move ⟨1, 1, 0⟩ headId ⟨3, 1, 0⟩ exArr.next)).toBool = true := by
   decide
 
 /-- the forward set-by-index of the first element succeeds -/
-example : (uexecute exArr.doc exArr.tw .loc
+example : (uexecute exArr.doc noTw .loc
     (.arraySet ⟨1, 1, 0⟩ ⟨2, 1, 0⟩ (UVal.ofVal (.prim "9") exArr.next) exArr.next)).toBool = true ∧
     (⟨1, 1, 0⟩ : Ticket).lamport ≤ exArr.lamport := by decide
 
@@ -306,79 +306,130 @@ end examplesTotal
   got its new identity): proved for histories that mix the object / counter alphabet of section 4
   with insertions into and deletions from arrays of leaves without moved elements, section 7
   (`undo_stack_inv_array`, `redo_stack_inv_array`).  The unrestricted depth-k statement for arrays
-  is false: `redo_counter_in_array_witness`, `undo_depth2_array_container_witness`,
-  `undo_multiop_same_entry_witness`; moves and set-by-index have totality only (section 5).
+  was false before the repair of `ReconcileCreatedAt` (`…_witness_unrepaired` in `namespace Witness`,
+  with the `…_fixed` counterparts); containers / counters as array ELEMENTS and several operations
+  per entry are still outside the proved alphabet; moves and set-by-index have totality only (section 5).
 * Container-valued overwrite / delete (restoring an object or array with content through
   `instantiate (capture …)`): undo proved, section 8 - for subtrees that are trees of live elements
   (`undo_do_set_overwrite_container`, `undo_do_delete_container`) and, more generally, under the
   decidable copy-stability predicate (`…_partial`).  The redo direction is missing.  Undo is skipped
-  when the object is twinned: `undo_do_nested_twin_witness`. -/
+  when the object has a removed ancestor-or-self (`orphaned`); the former twin condition is gone
+  (`undo_do_nested_twin_fixed`). -/
 
 /-! ### known counterexamples (reproduced on the Go implementation) -/
 
 namespace Witness
 
+/-! The four histories S1, S2, S4, S5 on BOTH instances of the history machine: `…W false` = the tree
+before the repair `hooks/fix-c14-reconcile-parent.patch` (`…_witness_unrepaired`: the recorded content
+is NOT restored - finding F-C14-array-reid as it was), and the unsuffixed functions = the instance
+at the switch `fixReconcileParent = true` (`…_fixed`: the recorded content IS restored). -/
+
 def T (l : Int) (dl : Nat) : Ticket := ⟨l, dl, 1⟩
 def h0 : Hist := { actor := 1 }
 def pv (s : String) (t : Ticket) : UVal := UVal.ofVal (.prim s) t
+/-- `Undo()` / `Redo()` of the tree before the repair -/
+def undoU (h : Hist) : Hist := (undoRedoW false h true).1
+def redoU (h : Hist) : Hist := (undoRedoW false h false).1
 
 /-- S1: arr = [x], x = {"a":1}; remove x -/
-def s1 : Hist :=
-  let h := doChange h0 [.set rootId "arr" (UVal.ofVal .newArr (T 1 1)) (T 1 1)]
-  let h := doChange h [.add (T 1 1) headId (UVal.ofVal .newObj (T 2 1)) (T 2 1)]
-  let h := doChange h [.set (T 2 1) "a" (pv "1" (T 3 1)) (T 3 1)]
-  doChange h [.remove (T 1 1) (T 2 1) (T 4 1)]
+def s1W (fx : Bool) : Hist :=
+  let h := doChangeW fx h0 [.set rootId "arr" (UVal.ofVal .newArr (T 1 1)) (T 1 1)]
+  let h := doChangeW fx h [.add (T 1 1) headId (UVal.ofVal .newObj (T 2 1)) (T 2 1)]
+  let h := doChangeW fx h [.set (T 2 1) "a" (pv "1" (T 3 1)) (T 3 1)]
+  doChangeW fx h [.remove (T 1 1) (T 2 1) (T 4 1)]
+def s1 : Hist := s1W fixReconcileParent
 
-/-- S1: the second undo should remove "a" (recorded content `{"arr":[{}]}`) but the stacked
-    `remove x a` names the tombstoned parent `x`, `ReconcileCreatedAt` never rewrites parents, and
-    the operation is skipped -/
+/-- S1, UNREPAIRED tree (`…W false`): the second undo should remove "a" (recorded content
+    `{"arr":[{}]}`) but the stacked `remove x a` names the tombstoned parent `x`, the old
+    `ReconcileCreatedAt` never rewrites parents, and the operation is skipped.  (The name without
+    suffix is kept because known_findings.json refers to it; it IS the unrepaired statement.) -/
 theorem undo_depth2_array_container_witness :
+    visible (s1W false) = "{\"arr\":[]}" ∧
+    visible (undoU (s1W false)) = "{\"arr\":[{\"a\":1}]}" ∧
+    visible (undoU (undoU (s1W false))) = "{\"arr\":[{\"a\":1}]}" ∧
+    visible (undoU (undoU (s1W false))) ≠ "{\"arr\":[{}]}" ∧
+    (undoRedoW false (undoU (s1W false)) true).2 matches .noop := by decide
+
+theorem undo_depth2_array_container_witness_unrepaired :
+    visible (undoU (undoU (s1W false))) = "{\"arr\":[{\"a\":1}]}" ∧
+    visible (undoU (undoU (s1W false))) ≠ "{\"arr\":[{}]}" :=
+  ⟨undo_depth2_array_container_witness.2.2.1, undo_depth2_array_container_witness.2.2.2.1⟩
+
+/-- S1, repaired: the stacked `remove x a` follows `x` to its new identity; the second undo gives the
+    recorded content -/
+theorem undo_depth2_array_container_fixed :
     visible s1 = "{\"arr\":[]}" ∧
     visible (undo s1) = "{\"arr\":[{\"a\":1}]}" ∧
-    visible (undo (undo s1)) = "{\"arr\":[{\"a\":1}]}" ∧
-    visible (undo (undo s1)) ≠ "{\"arr\":[{}]}" ∧
-    (undoRedo (undo s1) true).2 matches .noop := by decide
+    visible (undo (undo s1)) = "{\"arr\":[{}]}" := by decide
 
-/-- S2: arr = [ {p:{}} ] removed and restored by undo: `p` is twinned -/
-def s2 : Hist :=
-  let h := doChange h0 [.set rootId "arr" (UVal.ofVal .newArr (T 1 1)) (T 1 1)]
-  let h := doChange h [.add (T 1 1) headId (UVal.ofVal .newObj (T 2 1)) (T 2 1),
-                       .set (T 2 1) "p" (UVal.ofVal .newObj (T 2 2)) (T 2 2)]
-  let h := doChange h [.remove (T 1 1) (T 2 1) (T 3 1)]
-  undo h
+/-- S2: arr = [ {p:{}} ] removed and restored by undo (before the repair: `p` is twinned) -/
+def s2W (fx : Bool) : Hist :=
+  let h := doChangeW fx h0 [.set rootId "arr" (UVal.ofVal .newArr (T 1 1)) (T 1 1)]
+  let h := doChangeW fx h [.add (T 1 1) headId (UVal.ofVal .newObj (T 2 1)) (T 2 1),
+                           .set (T 2 1) "p" (UVal.ofVal .newObj (T 2 2)) (T 2 2)]
+  let h := doChangeW fx h [.remove (T 1 1) (T 2 1) (T 3 1)]
+  (undoRedoW fx h true).1
+def s2 : Hist := s2W fixReconcileParent
 
-/-- S2 (depth 1): a forward edit inside a twinned container is not undone -/
-theorem undo_do_nested_twin_witness :
+/-- S2 (depth 1), UNREPAIRED tree: a forward edit inside a twinned container is not undone -/
+theorem undo_do_nested_twin_witness_unrepaired :
+    (s2W false).lamport = 4 ∧
+    visible (s2W false) = "{\"arr\":[{\"p\":{}}]}" ∧
+    visible (doChangeW false (s2W false) [.set (T 2 2) "b" (pv "2" (T 5 1)) (T 5 1)]) = "{\"arr\":[{\"p\":{\"b\":2}}]}" ∧
+    visible (undoU (doChangeW false (s2W false) [.set (T 2 2) "b" (pv "2" (T 5 1)) (T 5 1)])) =
+      "{\"arr\":[{\"p\":{\"b\":2}}]}" ∧
+    visible (undoU (doChangeW false (s2W false) [.set (T 2 2) "b" (pv "2" (T 5 1)) (T 5 1)])) ≠ visible (s2W false) := by
+  decide
+
+/-- S2, repaired: the skip rule no longer sees the dead twin; the edit is undone -/
+theorem undo_do_nested_twin_fixed :
     s2.lamport = 4 ∧
     visible s2 = "{\"arr\":[{\"p\":{}}]}" ∧
     visible (doChange s2 [.set (T 2 2) "b" (pv "2" (T 5 1)) (T 5 1)]) = "{\"arr\":[{\"p\":{\"b\":2}}]}" ∧
-    visible (undo (doChange s2 [.set (T 2 2) "b" (pv "2" (T 5 1)) (T 5 1)])) = "{\"arr\":[{\"p\":{\"b\":2}}]}" ∧
-    visible (undo (doChange s2 [.set (T 2 2) "b" (pv "2" (T 5 1)) (T 5 1)])) ≠ visible s2 := by decide
+    visible (undo (doChange s2 [.set (T 2 2) "b" (pv "2" (T 5 1)) (T 5 1)])) = "{\"arr\":[{\"p\":{}}]}" := by
+  decide
 
-def s4 : Hist := doChange h0 [.set rootId "arr" (UVal.ofVal .newArr (T 1 1)) (T 1 1)]
+def s4W (fx : Bool) : Hist := doChangeW fx h0 [.set rootId "arr" (UVal.ofVal .newArr (T 1 1)) (T 1 1)]
+def s4 : Hist := s4W fixReconcileParent
 def s4e : List UOp := [.add (T 1 1) headId (pv "7" (T 2 1)) (T 2 1), .remove (T 1 1) (T 2 1) (T 2 2)]
 
-/-- S4: one change adds and removes the same element; undo re-adds it under a new identity and the
-    remaining `remove` of the popped entry is not reconciled -/
-theorem undo_multiop_same_entry_witness :
+/-- S4, UNREPAIRED tree: one change adds and removes the same element; undo re-adds it under a new
+    identity and the remaining `remove` of the popped entry is not reconciled -/
+theorem undo_multiop_same_entry_witness_unrepaired :
+    visible (s4W false) = "{\"arr\":[]}" ∧
+    visible (doChangeW false (s4W false) s4e) = "{\"arr\":[]}" ∧
+    visible (undoU (doChangeW false (s4W false) s4e)) = "{\"arr\":[7]}" ∧
+    visible (undoU (doChangeW false (s4W false) s4e)) ≠ visible (s4W false) := by decide
+
+/-- S4, repaired: the rest of the popped entry is reconciled as well -/
+theorem undo_multiop_same_entry_fixed :
     visible s4 = "{\"arr\":[]}" ∧
     visible (doChange s4 s4e) = "{\"arr\":[]}" ∧
-    visible (undo (doChange s4 s4e)) = "{\"arr\":[7]}" ∧
-    visible (undo (doChange s4 s4e)) ≠ visible s4 := by decide
+    visible (undo (doChange s4 s4e)) = "{\"arr\":[]}" := by decide
 
-def s5 : Hist :=
-  let h := doChange h0 [.set rootId "arr" (UVal.ofVal .newArr (T 1 1)) (T 1 1)]
-  let h := doChange h [.add (T 1 1) headId (UVal.ofVal (.newCounter false 0) (T 2 1)) (T 2 1)]
-  doChange h [.increase (T 2 1) 5 (T 3 1)]
+def s5W (fx : Bool) : Hist :=
+  let h := doChangeW fx h0 [.set rootId "arr" (UVal.ofVal .newArr (T 1 1)) (T 1 1)]
+  let h := doChangeW fx h [.add (T 1 1) headId (UVal.ofVal (.newCounter false 0) (T 2 1)) (T 2 1)]
+  doChangeW fx h [.increase (T 2 1) 5 (T 3 1)]
+def s5 : Hist := s5W fixReconcileParent
 
-/-- S5: the redone `increase` still names the counter's first identity -/
-theorem redo_counter_in_array_witness :
+/-- S5, UNREPAIRED tree: the redone `increase` still names the counter's first identity -/
+theorem redo_counter_in_array_witness_unrepaired :
+    visible (s5W false) = "{\"arr\":[5]}" ∧
+    visible (undoU (s5W false)) = "{\"arr\":[0]}" ∧
+    visible (undoU (undoU (s5W false))) = "{\"arr\":[]}" ∧
+    visible (redoU (undoU (undoU (s5W false)))) = "{\"arr\":[0]}" ∧
+    visible (redoU (redoU (undoU (undoU (s5W false))))) = "{\"arr\":[0]}" ∧
+    visible (redoU (redoU (undoU (undoU (s5W false))))) ≠ visible (s5W false) := by decide
+
+/-- S5, repaired: the stacked `increase` follows the counter to its new identity -/
+theorem redo_counter_in_array_fixed :
     visible s5 = "{\"arr\":[5]}" ∧
     visible (undo s5) = "{\"arr\":[0]}" ∧
     visible (undo (undo s5)) = "{\"arr\":[]}" ∧
     visible (redo (undo (undo s5))) = "{\"arr\":[0]}" ∧
-    visible (redo (redo (undo (undo s5)))) = "{\"arr\":[0]}" ∧
-    visible (redo (redo (undo (undo s5)))) ≠ visible s5 := by decide
+    visible (redo (redo (undo (undo s5)))) = "{\"arr\":[5]}" := by decide
 
 end Witness
 
@@ -402,7 +453,7 @@ theorem redo_undo_do_insert_leaf (h : Hist) (fr : Fresh h) (p prev : Ticket) (v 
 
 theorem redo_undo_do_array_delete_leaf (h : Hist) (fr : Fresh h) (p u : Ticket) (pe ue : Elem)
     (nodes : List PosNode) (moved : Ticket → Option Ticket) (a : ArrDel h p u pe ue nodes moved)
-    (horph : orphaned h.doc h.tw orphanFuel p = false) (fuel : Nat) :
+    (horph : orphaned h.doc noTw orphanFuel p = false) (fuel : Nat) :
     marshal (redo (undo (doChange h [.remove p u h.next]))).doc fuel rootId =
       marshal (doChange h [.remove p u h.next]).doc fuel rootId :=
   redo_undo_do_array_delete_lemma fr a horph fuel
@@ -414,7 +465,7 @@ example : ArrIns hArr tA eArr [⟨tX, some tX⟩, ⟨tY, some tY⟩] (fun _ => n
   ⟨rfl, rfl, by decide, by decide, by decide, by decide⟩
 example : leafBody (Val.prim "7").body = true ∧
     (insertAfter tX ⟨hArr.next, some hArr.next⟩ [⟨tX, some tX⟩, ⟨tY, some tY⟩]).isSome = true := by decide
-example : orphaned hArr.doc hArr.tw orphanFuel tA = false := by decide
+example : orphaned hArr.doc noTw orphanFuel tA = false := by decide
 /-- the two theorems evaluated on the example -/
 example :
     visible (redo (undo (doChange hArr [.add tA tX (UVal.ofVal (.prim "7") hArr.next) hArr.next]))) = "{\"arr\":[1,7,2]}" ∧
@@ -433,13 +484,12 @@ leaf member of the object `p`, or of a visible leaf of the array `p`), `increase
 `prev = headId`: at the front).  `runMEdits` performs one local change per edit; `MEditsOk H h es`
 (`GoodOp3`, Lemmas/UndoArray11.lean): when its turn comes the edit satisfies the conditions of section 4
 (objects, counters; a counter must be a member of a live object - a counter inside an array is
-outside the alphabet, `redo_counter_in_array_witness`) resp. the array is live and not orphaned, the
-anchor / target is in the visible list, the deleted element is an untwinned leaf, and `H` homes the
+outside the alphabet of this theorem) resp. the array is live and not orphaned, the
+anchor / target is in the visible list, the deleted element is a leaf, and `H` homes the
 ticket of an inserted element in `p`.  `checkMRun` is the decidable version.  Hypotheses on the start
 state: `WF`, `Bounded` (as in section 4), every array of the heap is plain (`PlainArrs`,
 Lemmas/UndoArray4.lean: no moved elements - every node holds the element it was created with; position
-identities pairwise distinct, not the head identity, not later than the clock), twinned identities are
-not later than the clock, the root is a live container.
+identities pairwise distinct, not the head identity, not later than the clock), the root is a live container.
 
 The proof (Lemmas/UndoArray3 … 16) keeps a renaming `ρ` from the identities of the RECORDED heaps to
 the present ones: after every undo / redo the present heap simulates the recorded one under `ρ`
@@ -450,21 +500,21 @@ moves only identities homed in arrays, so it fixes whatever the object / counter
 
 /-- after the edits `a ++ b`, `|b| ≤ maxDepth` undos bring back exactly the content after `a` -/
 theorem undo_stack_inv_array (H : Home) (h : Hist) (w : WF H h.doc) (bd : Bounded h.doc h.lamport)
-    (pl : PlainArrs h.doc h.lamport) (twb : ∀ t, h.tw t = true → t.lamport ≤ h.lamport)
+    (pl : PlainArrs h.doc h.lamport)
     (root : skel h.doc rootId = some false) (a b : List MEdit) (ok : MEditsOk H h (a ++ b))
     (hb : b.length ≤ maxDepth) (fuel : Nat) :
     marshal (undoN b.length (runMEdits h (a ++ b))).doc fuel rootId =
       marshal (runMEdits h a).doc fuel rootId :=
-  undo_run_marshal3 w bd pl twb root a b ok hb fuel
+  undo_run_marshal3 w bd pl root a b ok hb fuel
 
 /-- … and `|b|` redos after `|b ++ c|` undos bring back exactly the content after `a ++ b` -/
 theorem redo_stack_inv_array (H : Home) (h : Hist) (w : WF H h.doc) (bd : Bounded h.doc h.lamport)
-    (pl : PlainArrs h.doc h.lamport) (twb : ∀ t, h.tw t = true → t.lamport ≤ h.lamport)
+    (pl : PlainArrs h.doc h.lamport)
     (root : skel h.doc rootId = some false) (a b c : List MEdit) (ok : MEditsOk H h (a ++ (b ++ c)))
     (hb : (b ++ c).length ≤ maxDepth) (fuel : Nat) :
     marshal (redoN b.length (undoN (b ++ c).length (runMEdits h (a ++ (b ++ c))))).doc fuel rootId =
       marshal (runMEdits h (a ++ b)).doc fuel rootId :=
-  redo_run_marshal3 w bd pl twb root a b c ok hb fuel
+  redo_run_marshal3 w bd pl root a b c ok hb fuel
 
 /-- the decidable check implies executability of the run -/
 theorem checkMRun_sound (H : Home) (h : Hist) (es : List MEdit) (hc : checkMRun H h es = true) :
@@ -482,8 +532,8 @@ def exARun : List MEdit :=
 
 example : checkMRun HArr hArr exARun = true := by decide
 example : WF HArr hArr.doc ∧ Bounded hArr.doc hArr.lamport ∧ PlainArrs hArr.doc hArr.lamport ∧
-    (∀ t, hArr.tw t = true → t.lamport ≤ hArr.lamport) ∧ skel hArr.doc rootId = some false :=
-  ⟨wf_dArr, bounded_dArr, plain_dArr, (fun _ ht => by cases ht), by decide⟩
+    skel hArr.doc rootId = some false :=
+  ⟨wf_dArr, bounded_dArr, plain_dArr, by decide⟩
 example : (exARun.drop 1).length ≤ maxDepth := by decide
 example : visible (runMEdits hArr exARun) = "{\"arr\":[0]}" ∧
     visible (runMEdits hArr (exARun.take 1)) = "{\"arr\":[1,7,2]}" ∧
@@ -492,13 +542,13 @@ example : visible (runMEdits hArr exARun) = "{\"arr\":[0]}" ∧
 /-- instance of `undo_stack_inv_array`: four undos after the five edits print the content after one -/
 example (fuel : Nat) : marshal (undoN 4 (runMEdits hArr exARun)).doc fuel rootId =
     marshal (runMEdits hArr (exARun.take 1)).doc fuel rootId :=
-  undo_stack_inv_array HArr hArr wf_dArr bounded_dArr plain_dArr (fun _ ht => by cases ht) (by decide)
+  undo_stack_inv_array HArr hArr wf_dArr bounded_dArr plain_dArr (by decide)
     (exARun.take 1) (exARun.drop 1) (checkMRun_ok (by decide)) (by decide) fuel
 
 /-- instance of `redo_stack_inv_array`: four undos, then two redos print the content after three edits -/
 example (fuel : Nat) : marshal (redoN 2 (undoN 4 (runMEdits hArr exARun))).doc fuel rootId =
     marshal (runMEdits hArr (exARun.take 3)).doc fuel rootId :=
-  redo_stack_inv_array HArr hArr wf_dArr bounded_dArr plain_dArr (fun _ ht => by cases ht) (by decide)
+  redo_stack_inv_array HArr hArr wf_dArr bounded_dArr plain_dArr (by decide)
     (exARun.take 1) ((exARun.drop 1).take 2) (exARun.drop 3) (checkMRun_ok (by decide)) (by decide) fuel
 
 example : visible (undoN 4 (runMEdits hArr exARun)) = "{\"arr\":[1,7,2]}" ∧
@@ -519,12 +569,12 @@ example : visible (runMEdits hArr exMRun) = "{\"arr\":[2],\"c\":8}" ∧
 /-- six undos after the seven edits print the content after one; then three redos the content after four -/
 example (fuel : Nat) : marshal (undoN 6 (runMEdits hArr exMRun)).doc fuel rootId =
     marshal (runMEdits hArr (exMRun.take 1)).doc fuel rootId :=
-  undo_stack_inv_array HMix hArr wf_dArr_mix bounded_dArr plain_dArr (fun _ ht => by cases ht) (by decide)
+  undo_stack_inv_array HMix hArr wf_dArr_mix bounded_dArr plain_dArr (by decide)
     (exMRun.take 1) (exMRun.drop 1) (checkMRun_ok (by decide)) (by decide) fuel
 
 example (fuel : Nat) : marshal (redoN 3 (undoN 6 (runMEdits hArr exMRun))).doc fuel rootId =
     marshal (runMEdits hArr (exMRun.take 4)).doc fuel rootId :=
-  redo_stack_inv_array HMix hArr wf_dArr_mix bounded_dArr plain_dArr (fun _ ht => by cases ht) (by decide)
+  redo_stack_inv_array HMix hArr wf_dArr_mix bounded_dArr plain_dArr (by decide)
     (exMRun.take 1) ((exMRun.drop 1).take 3) (exMRun.drop 4) (checkMRun_ok (by decide)) (by decide) fuel
 
 example : visible (undoN 6 (runMEdits hArr exMRun)) = "{\"a\":x,\"arr\":[1,2]}" ∧
@@ -539,11 +589,11 @@ operation is `Set p k (capture d u)` (`DeepCopy` at record time); its execution 
 time (`instantiate`: `copyBody (lookupSub sub)`), re-registers every descendant and links `u` again.
 
 `_partial`: instead of structural conditions on the subtree, these two theorems assume the
-copy-stability predicate `copyStableB h.doc h.tw p u` (Lemmas/UndoArray9.lean), a Boolean function of
+copy-stability predicate `copyStableB h.doc p u` (Lemmas/UndoArray9.lean), a Boolean function of
 the heap: `capture h.doc u` succeeds and, with `cv` the captured value, (1) `p` is not among the
 identities `instantiate h.doc p cv false` writes, (2) each of them is an entry of `h.doc` and has in the
 instantiated heap the visible normal form (`vis`) and liveness it has in `h.doc`, (3) `p` is not
-orphaned (no removed or twinned ancestor-or-self, cf. `undo_do_nested_twin_witness`) while `u` is
+orphaned (no removed ancestor-or-self) while `u` is
 tombstoned (which also excludes parent cycles through `u`).  The predicate also holds for values with
 removed descendants (`emptied` copies) as long as (2) evaluates to true; what is missing for a full
 statement is a structural characterisation of all heaps on which it holds.
@@ -559,7 +609,7 @@ without moved elements -, nesting depth within `copyFuel`), every identity occur
 /-- undo of `obj.k = leaf` over a live member `u` of any kind (leaf or container with content) -/
 theorem undo_do_set_overwrite_container_partial (h : Hist) (fr : Fresh h) (p u : Ticket) (k : String) (v : Val)
     (hp : isObj h.doc p = true) (hv : leafBody v.body = true) (hk : winner h.doc p k = some u)
-    (hcs : copyStableB h.doc h.tw p u = true) (fuel : Nat) :
+    (hcs : copyStableB h.doc p u = true) (fuel : Nat) :
     marshal (undo (doChange h [.set p k (UVal.ofVal v h.next) h.next])).doc fuel rootId =
       marshal h.doc fuel rootId :=
   undo_do_set_overwrite_container_lemma fr hp hv hk hcs fuel
@@ -567,7 +617,7 @@ theorem undo_do_set_overwrite_container_partial (h : Hist) (fr : Fresh h) (p u :
 /-- undo of `delete obj.k` where the value `u` is of any kind (leaf or container with content) -/
 theorem undo_do_delete_container_partial (h : Hist) (fr : Fresh h) (p u : Ticket) (k : String)
     (hp : isObj h.doc p = true) (hk : winner h.doc p k = some u)
-    (hcs : copyStableB h.doc h.tw p u = true) (fuel : Nat) :
+    (hcs : copyStableB h.doc p u = true) (fuel : Nat) :
     marshal (undo (doChange h [.remove p u h.next])).doc fuel rootId = marshal h.doc fuel rootId :=
   undo_do_delete_container_lemma fr hp hk hcs fuel
 
@@ -577,7 +627,7 @@ theorem undo_do_set_overwrite_container (h : Hist) (fr : Fresh h) (p u : Ticket)
     (hu : h.doc u = some ue) (tree : TreeBelow h.doc copyFuel u ue.body)
     (hnd : ((copyBody h.doc copyFuel u ue.body).2.map (·.1)).Nodup)
     (hpS : p ∉ u :: (copyBody h.doc copyFuel u ue.body).2.map (·.1))
-    (horph : orphaned (kill h.doc (some u)) h.tw orphanFuel p = false) (fuel : Nat) :
+    (horph : orphaned (kill h.doc (some u)) noTw orphanFuel p = false) (fuel : Nat) :
     marshal (undo (doChange h [.set p k (UVal.ofVal v h.next) h.next])).doc fuel rootId =
       marshal h.doc fuel rootId :=
   undo_do_set_overwrite_container_tree fr hp hv hk hu tree hnd hpS horph fuel
@@ -588,7 +638,7 @@ theorem undo_do_delete_container (h : Hist) (fr : Fresh h) (p u : Ticket) (k : S
     (hu : h.doc u = some ue) (tree : TreeBelow h.doc copyFuel u ue.body)
     (hnd : ((copyBody h.doc copyFuel u ue.body).2.map (·.1)).Nodup)
     (hpS : p ∉ u :: (copyBody h.doc copyFuel u ue.body).2.map (·.1))
-    (horph : orphaned (kill h.doc (some u)) h.tw orphanFuel p = false) (fuel : Nat) :
+    (horph : orphaned (kill h.doc (some u)) noTw orphanFuel p = false) (fuel : Nat) :
     marshal (undo (doChange h [.remove p u h.next])).doc fuel rootId = marshal h.doc fuel rootId :=
   undo_do_delete_container_tree fr hp hk hu tree hnd hpS horph fuel
 
@@ -603,14 +653,14 @@ open Yorkie.Undo.Nested
 example : visible hN = "{\"o\":{\"x\":1,\"y\":[2]}}" := by decide
 example : Fresh hN := fresh_hN
 /-- the nested value `{"x":1,"y":[2]}` below the root, and the array `[2]` below it, are copy-stable -/
-example : copyStableB hN.doc hN.tw rootId tO = true ∧ copyStableB hN.doc hN.tw tO tY = true := by decide
+example : copyStableB hN.doc rootId tO = true ∧ copyStableB hN.doc tO tY = true := by decide
 example : isObj hN.doc rootId = true ∧ winner hN.doc rootId "o" = some tO ∧
     isObj hN.doc tO = true ∧ winner hN.doc tO "y" = some tY ∧ leafBody (Val.prim "9").body = true := by decide
 /-- hypotheses of the tree theorems on the example (`u` = the value of "o") -/
 example : hN.doc tO = some eO ∧ TreeBelow hN.doc copyFuel tO eO.body ∧
     ((copyBody hN.doc copyFuel tO eO.body).2.map (·.1)).Nodup ∧
     rootId ∉ tO :: (copyBody hN.doc copyFuel tO eO.body).2.map (·.1) ∧
-    orphaned (kill hN.doc (some tO)) hN.tw orphanFuel rootId = false :=
+    orphaned (kill hN.doc (some tO)) noTw orphanFuel rootId = false :=
   ⟨rfl, treeBelowB_sound _ _ _ (by decide), by decide, by decide, by decide⟩
 /-- the theorems evaluated on the example -/
 example :
